@@ -301,3 +301,32 @@ func vC0809Oracle(e *vExch, auth bool, gwUser *string, gwPass []byte, in interfa
 		vAssert(okc, "C09.connack_mirrors_broker")
 	}
 }
+
+// VH_C08_session(will): the same exchange through the real run(), i.e. through
+// the real snReceiveLoop with its receive buffer, datagram by datagram: CONNECT
+// (with a will when will = 1), AUTH PLAIN with symbolic user / password bytes,
+// WILLTOPIC, WILLMSG. The MQTT CONNECT that goes out must carry exactly the
+// credentials and the will of the datagrams received - whatever was received
+// after them.
+func VH_C08_session(will int) {
+	s := vStartSessionOpt(true, nil, nil, nil, true)
+	user, pass := vNondetString("user", 2), vNondetBytes("pass", 3)
+	vAssume(vAnd(vAnd(user[0] != 0, user[1] != 0), vAnd(pass[0] != 0, vAnd(pass[1] != 0, pass[2] != 0))))
+	s.clientSends(snPkts1.NewConnect(vNondetU16("keepalive"), []byte("c"), will == 1, true))
+	s.clientSends(snPkts1.NewAuthPlain(user, pass))
+	wt, wm := vNondetString("willtopic", 2), vNondetBytes("willmsg", 3)
+	if will == 1 {
+		vAssume(!vHasWild([]byte(wt)))
+		s.clientSends(snPkts1.NewWillTopic(wt, 1, false))
+		s.clientSends(snPkts1.NewWillMsg(wm))
+	}
+	vAssume(!s.done)
+	vAssume(len(s.mq.out) == 1)
+	vReach("C08.session_connect_sent")
+	m := vParseMQTT(s.mq.out[0])
+	ok := vAnd(m.OK, m.Typ == vmCONNECT)
+	vAssert(vAnd(ok, vAnd(string(m.User) == user, bytes.Equal(m.Pass, pass))), "C08.connect_carries_auth_credentials")
+	if will == 1 {
+		vAssert(vAnd(ok, vAnd(string(m.WillTopic) == wt, bytes.Equal(m.WillMsg, wm))), "C09.connect_carries_will")
+	}
+}
